@@ -385,12 +385,14 @@ class TileCreator(object):
             created_tiles = self._create_meta_tile(meta_tile)
         else:
             meta_tiles = []
-            meta_bboxes = set()
+            seen_meta_tiles = set()
             for tile in tiles:
                 meta_tile = self.meta_grid.meta_tile(tile.coord)
-                if meta_tile.bbox not in meta_bboxes:
+                # not by bbox: buffered bboxes of different meta tiles can be clipped
+                # to the same rectangle at the grid border
+                if meta_tile.main_tile_coord not in seen_meta_tiles:
                     meta_tiles.append(meta_tile)
-                    meta_bboxes.add(meta_tile.bbox)
+                    seen_meta_tiles.add(meta_tile.main_tile_coord)
 
             created_tiles = self._create_meta_tiles(meta_tiles)
 
